@@ -128,6 +128,47 @@ end
 /-- The formal operator denoted by a state diagram. -/
 def sdDenote (d : SD) : FSum := denoteAt d none
 
+/-! The same denotation written out as the explicit sum over *all* global choices of one hyperedge
+per node, keeping those that agree on every vertex (`sdDenoteEnum`; equality with `sdDenote` is
+theorem `denote_eq_sum_over_choices`). -/
+
+/-- A choice of one hyperedge for every node of a (sub)tree. -/
+inductive Choice where
+  | node (h : HE) (kids : List Choice)
+
+mutual
+/-- All choices: any hyperedge of the node, any choices below the children. -/
+def choices : SD → List Choice
+  | .node _ _ hes kids => hes.flatMap fun h => (choicesKids kids).map (Choice.node h)
+def choicesKids : List SD → List (List Choice)
+  | [] => [[]]
+  | k :: ks => (choices k).flatMap fun c => (choicesKids ks).map (c :: ·)
+end
+
+mutual
+/-- The chosen hyperedges agree on every vertex: the hyperedge of the node sits on vertex `pv` of the
+    parent edge and each child's hyperedge sits on the vertex the node's hyperedge names. -/
+def consistent : Choice → Option Nat → Bool
+  | .node h cs, pv => decide (h.pv = pv) && consistentKids cs h.kv
+def consistentKids : List Choice → List Nat → Bool
+  | [], [] => true
+  | c :: cs, v :: vs => consistent c (some v) && consistentKids cs vs
+  | [], _ :: _ => false
+  | _ :: _, [] => false
+end
+
+mutual
+/-- Weight and label assignment of a choice: product of all λ, all γ, and the chosen labels. -/
+def monoOf : SD → Choice → Mono
+  | .node i _ _ kids, .node h cs => attach i h (monoKids kids cs)
+def monoKids : List SD → List Choice → Mono
+  | k :: ks, c :: cs => (monoOf k c).mul (monoKids ks cs)
+  | [], _ => Mono.one
+  | _ :: _, [] => Mono.one
+end
+
+def sdDenoteEnum (d : SD) : FSum := ((choices d).filter (consistent · none)).map (monoOf d)
+
 /-! ### `SingleTermDiagram.from_single_term` -/
 
 mutual
